@@ -91,7 +91,7 @@ pub fn builtin_map_with_key(
 
 #[builtin]
 pub fn builtin_flatmap(
-	func: NativeFn!((Either![String, Val]) -> Val),
+	func: NativeFn!((Either![String, Thunk<Val>]) -> Val),
 	arr: IndexableVal,
 ) -> Result<IndexableVal> {
 	use std::fmt::Write;
@@ -109,19 +109,18 @@ pub fn builtin_flatmap(
 		}
 		IndexableVal::Arr(a) => {
 			let mut out = Vec::new();
-			for el in a.iter() {
-				let el = el?;
+			for el in a.iter_lazy() {
 				match func.call(Either2::B(el))? {
 					Val::Arr(o) => {
-						for oe in o.iter() {
-							out.push(oe?);
+						for oe in o.iter_lazy() {
+							out.push(oe);
 						}
 					}
 					Val::Null => {}
 					_ => bail!("in std.join all items should be arrays"),
 				}
 			}
-			Ok(IndexableVal::Arr(out.into()))
+			Ok(IndexableVal::Arr(ArrValue::lazy(out)))
 		}
 	}
 }
